@@ -122,12 +122,15 @@ fn gen(rng: &mut Rng, i: usize) -> Case {
             now += delta(rng, size, slide);
             let k = if skew == 1 && rng.chance(3, 4) { 0 } else { rng.range(0, nkeys - 1) };
             let v = Val::pair(Val::Int(k), Val::Int(next));
-            let e = if timestamped { StreamElement::Timestamped(v, j) } else { StreamElement::Item(v) };
+            // event timestamps mean nothing to session / processing-time windows: duplicates, and elements
+            // at or below an earlier watermark, must be windowed like any other element
+            let ts = if rng.chance(1, 2) { j } else { j / 2 };
+            let e = if timestamped { StreamElement::Timestamped(v, ts) } else { StreamElement::Item(v) };
             c.ops(vec!["e".into(), now.to_string(), fmt_elem(&e)]);
             // Watermarks reach every manager (mod.rs:198-218), FlushBatch none (mod.rs:197)
             if rng.chance(1, 6) {
                 now += delta(rng, size, slide);
-                c.ops(vec!["e".into(), now.to_string(), format!("W:{j}")]);
+                c.ops(vec!["e".into(), now.to_string(), format!("W:{}", j + rng.range(0, 2))]);
             }
             if rng.chance(1, 12) {
                 now += delta(rng, size, slide);
